@@ -53,6 +53,8 @@ func main() {
 					cases = append(cases, g.dnestCase(i))
 				case "dfunc":
 					cases = append(cases, g.dfuncCase(i))
+				case "incl":
+					cases = append(cases, g.inclCase(i))
 				case "sequence", "concurrent":
 					cases = append(cases, g.multiCase(i, *prof))
 				case "extreme":
